@@ -189,7 +189,8 @@ Theorem C06_tune_valid_defaults : forall ln cube tid k terms e,
 Proof. exact tune_valid_defaults. Qed.
 Print Assumptions C06_tune_valid_defaults.
 
-(* ---- tuning with environment::reconcile (repair of tune_valid_size_conflict): [tune_rec] ----
+(* ---- tuning with environment::reconcile (repair of tune_valid_size_conflict, now in the tree): [tune_rec];
+   [tune] above is the model of the code before that repair ----
    FULL: every admissible user environment (passes is_valid(false), population
    not 1 -- the property quantifies over populations of 4 and more) is tuned into
    an environment that passes is_valid(true); for search, ga_search, de_search
